@@ -116,11 +116,12 @@ func ZZH12Literal() {
 			sym.Assume(sym.And(body[i] != '\n', body[i] != '\r'))
 		}
 	}
-	src := "x=" + string([]byte{q}) + body
+	prefix := []string{"x=", ""}[sym.Choose("prefix", 2)] // also a literal that opens the program
+	src := prefix + string([]byte{q}) + body
 	// the reference scanner must see an unterminated literal (no closing
 	// delimiter before the end of the text)
 	toks := RScan(src)
-	sym.Assume(len(toks) == 4 && toks[2].Kind == RBad && toks[2].Start == 2)
+	sym.Assume(len(toks) >= 2 && toks[len(toks)-2].Kind == RBad && toks[len(toks)-2].Start == len(prefix))
 	p := parser.NewBuilder(lexer.NewBuilder()).Build(src)
 	_, err := p.ParseProgram()
 	errs := p.Errors()
@@ -128,7 +129,7 @@ func ZZH12Literal() {
 	sym.Assert(err != nil && len(errs) > 0, "truncated-literal-rejected")
 	if len(errs) > 0 {
 		e := errs[0].Range.Start
-		sym.Assert(e.Line > 0 || e.Column >= 2, "truncated-literal-first-error-not-before-the-literal")
+		sym.Assert(e.Line > 0 || e.Column >= len(prefix), "truncated-literal-first-error-not-before-the-literal")
 	}
 	sym.Cover("end")
 }
